@@ -216,12 +216,97 @@ class Setup(Lane):
         return Lane.key(self, obname, out)
 
 
+
+class EntryPoints(Lane):
+    """the string / default-settings entry points: LdapConnAsync::{new, with_settings, from_url} and
+    LdapConn::{new, with_settings, from_url}.  Url::parse is a stub answering Ok(url) or Err(parse error);
+    from_url_with_settings is an intercepted, uninterpreted callee."""
+    name = 'C18.entry_points'
+    FNS = ['LdapConnAsync::with_settings', 'LdapConnAsync::new', 'LdapConnAsync::from_url', 'LdapConn::with_settings', 'LdapConn::new', 'LdapConn::from_url']
+
+    def inputs(self):
+        c = self.c
+        return {'fn': self.FNS[c.choose(len(self.FNS), 'fn')], 'parse_ok': bool(c.choose(2, 'parse_ok')), 'callee_ok': bool(c.choose(2, 'callee_ok')),
+                'tmo': z3.BitVec('tmo', 64), 'starttls': z3.Bool('starttls'), 'noverify': z3.Bool('noverify')}
+
+    def execute(self, d):
+        c = self.c
+        calls = []; parsed = Opaque('Url', 'parsed'); given = Opaque('Url', 'given')
+        settings = StructV('LdapConnSettings', [('conn_timeout', Some(StructV('Duration', [('secs', d['tmo']), ('nanos', z3.BitVecVal(0, 32))]))), ('connector', NONE()), ('starttls', d['starttls']),
+                                                ('no_tls_verify', d['noverify']), ('std_stream', NONE())])
+        sync = d['fn'].startswith('LdapConn::')
+        target = 'LdapConn::from_url_with_settings' if sync else 'LdapConnAsync::from_url_with_settings'
+        token = Ok(Opaque('connected')) if d['callee_ok'] else Err(EnumV('LdapError', 'EmptyUnixPath'))
+
+        def callee(ctx, call, st, u):
+            calls.append((deref(st), deref(u)))
+            if sync: return token
+            return EnvFut('uninterpreted', value=token)
+        c.intercept = {
+            'Url::parse': lambda ctx, call, s_: (Ok(parsed) if d['parse_ok'] else Err(EnumV('ParseError', 'EmptyHost'))),
+            'from_url_with_settings': callee, target: callee,
+        }
+        c.env = {'uninterpreted': lambda ctx, f: f.value}
+        try:
+            leaf = d['fn'].split('::')[1]
+            args = {'with_settings': [settings, StrV(S('ldap://h'))], 'new': [StrV(S('ldap://h'))], 'from_url': [given]}[leaf]
+            r = c.run_fn(d['fn'], args)
+            if not sync:
+                r = c.run_fn(r.body, [Tup([r]), Opaque('Context')])
+                r = r.fields[0] if r.variant == 'Ready' else 'pending'
+        finally:
+            c.intercept = {}; c.env = {}
+        return {'r': r, 'calls': calls, 'settings': settings, 'parsed': parsed, 'given': given, 'token': token}
+
+    def oracle(self, d, out):
+        if out[0] == 'panic': return [('no URL or settings combination makes connection setup panic', FALSE)]
+        o = out[1]; leaf = d['fn'].split('::')[1]; r = o['r']
+        if leaf != 'from_url' and not d['parse_ok']:
+            ek = deref(r.fields[0]).variant if isinstance(r, EnumV) and r.variant == 'Err' and isinstance(deref(r.fields[0]), EnumV) else None
+            return [('an unparsable URL is an error (UrlParsing) and nothing is attempted', z3.BoolVal(ek == 'UrlParsing' and not o['calls']))]
+        obs = [('exactly one connection attempt is made', z3.BoolVal(len(o['calls']) == 1))]
+        if len(o['calls']) != 1: return obs
+        st, u = o['calls'][0]
+        obs.append(('...to the URL that was given / parsed', z3.BoolVal(u is (o['given'] if leaf == 'from_url' else o['parsed']))))
+        if leaf == 'with_settings':
+            obs.append(('...with exactly the caller\'s settings', eq_term(st, o['settings'])))
+        else:
+            dflt = self.c.run_fn('LdapConnSettings::new', [])
+            obs.append(('...with default settings (no timeout, no StartTLS, verification on, no pre-opened stream)', and_all([eq_term(st, dflt), z3.BoolVal(st.fields['conn_timeout'].variant == 'None' and st.fields['std_stream'].variant == 'None'),
+                                                                                                                   z3.Not(st.fields['starttls']) if z3.is_expr(st.fields['starttls']) else z3.BoolVal(not st.fields['starttls']),
+                                                                                                                   z3.Not(st.fields['no_tls_verify']) if z3.is_expr(st.fields['no_tls_verify']) else z3.BoolVal(not st.fields['no_tls_verify'])])))
+        obs.append(('the outcome of the attempt is returned unchanged', z3.BoolVal(r is o['token'] or (isinstance(r, EnumV) and r.variant == o['token'].variant and deref(r.fields[0]) is deref(o['token'].fields[0])))))
+        return obs
+
+    def replay_by_role(self, cd, obname, out, m):
+        # natively: the entry point against a listening Unix socket / an unparsable URL
+        case = {'cmd': 'async:entry', 'fn': cd['fn'], 'parse_ok': cd['parse_ok']}
+        nj = native([case])[0]
+        v = nj.get('value') or {}
+        bad = v.get('bad')
+        return bool(bad), 'entry:' + cd['fn'], (f'{cd["fn"]}: {bad}' if bad else None), case, {'native': nj}
+
+    def case(self, cd): return {'cmd': 'async:entry', 'fn': cd['fn'], 'parse_ok': cd['parse_ok']}
+
+    def summary(self, out, model=None):
+        if out[0] == 'panic': return {'panic': out[1].msg}
+        o = out[1]; r = o['r']
+        return {'result': r.variant if isinstance(r, EnumV) else str(r), 'attempts': len(o['calls'])}
+
+    def in_summary(self, d, model=None):
+        return {'fn': d['fn'], 'parse_ok': d['parse_ok'], 'callee_ok': d['callee_ok']}
+
+    def regions(self, d, out):
+        return [d['fn']]
+
 def body(chk):
     quick = chk.tier == 'quick'
     hl = 3 if quick else 4
     run_lane(chk, Setup, (hl,), bounds={'scheme': 'ldap | ldaps | ldapi | any other 4 lowercase letters', 'host': f'None | "" | 1..{hl} symbolic host characters (incl. percent sequences)', 'port': 'None | any u16',
                                          'pre-opened stream': 'None | Tcp | Unix | Invalid', 'timeout': 'None | any', 'StartTLS': 'symbolic'},
              selftest=False, variant='tls', need_regions=('ldap/none', 'ldaps/none', 'ldapi/none', 'ldap/Tcp', 'ldapi/Unix', 'None/none'))
+    run_lane(chk, EntryPoints, (), bounds={'entry points': EntryPoints.FNS, 'Url::parse': 'stub: Ok(url) | Err(parse error)', 'from_url_with_settings': 'uninterpreted callee: Ok | Err', 'settings': 'symbolic timeout / StartTLS / verification flags'},
+             selftest=False, variant='tls', need_regions=tuple(EntryPoints.FNS))
     chk.assumptions += [
         'pre-connect part only: everything from the first socket call on (TCP/Unix connect, StartTLS exchange, TLS handshake) is outside; "unreachable endpoints return an error" is the OS\'s answer passed through by `?`',
         'url::Url::{scheme, host_str, port} are nondeterministic stubs: host characters are those an opaque host of a non-special URL can contain (no ":" - the url crate splits the port off)',
